@@ -11,9 +11,20 @@ import vlib, zoo, seekgraph
 PID = 'C19'
 OV_EOF = -2
 VARIANTS = ('PS', 'PP', 'RS', 'TS', 'TP')
-FILES = ('F1', 'F2', 'F2z')
+FILES = ('F1', 'F2', 'F2z', 'F3', 'F8', 'F9')
+# synthesised streams with 64-sample short blocks (lap length 32; ov_halfrate is refused on them): full-rate cases only
+SYNTH = ('F3', 'F8', 'F9')
+OV_EINVAL = -131
 XPAIRS_QUICK = (('F1', 'F1'), ('F2', 'F2'), ('F1', 'F2'), ('F2', 'F2z'), ('F2z', 'F2'))
 XPAIRS_THOROUGH = XPAIRS_QUICK + (('F2', 'F1'), ('F2z', 'F2z'), ('F2z', 'F1'), ('F1', 'F2z'))
+XPAIRS_SYNTH_QUICK = (('F8', 'F8'), ('F3', 'F8'))
+XPAIRS_SYNTH_THOROUGH = XPAIRS_SYNTH_QUICK + (('F3', 'F3'), ('F9', 'F9'), ('F8', 'F3'), ('F2', 'F8'), ('F8', 'F2'), ('F9', 'F2'), ('F2', 'F9'), ('F1', 'F3'))
+
+
+def file_set():
+    allf = dict(zoo.standard_files())
+    allf.update(zoo.halfrate_refusal_files())
+    return {k: allf[k] for k in FILES}
 
 
 # ------------------------------------------------------------------ enumeration domains
@@ -46,6 +57,10 @@ def old_positions(fm, rich):
             O.append(('emptylink', ['rs%d' % fm.lt[k]['offset']]))
             if rich:
                 O.append(('emptylink', ['rs%d' % (fm.pages[fm.lt[k]['last']].offset)]))
+    if fm.name in SYNTH:
+        # ov_halfrate(vf,1) must be refused here; the refusal must leave lapping as it was
+        O.append(('halfrate_refused', ['h1', 'rf37']))
+        O.append(('halfrate_refused', ['rf4096', 'rf37', 'h1']))
     O.append(('eof', ['ps%d' % (L - 100), 'rx100', 'rf1']))               # the zero return has been seen
     O.append(('eof', ['ps%d' % L]))
     O.append(('dumped', ['rs%d' % fm.size]))                               # decoder dumped at the end of the file
@@ -118,7 +133,7 @@ def parse(line):
             'src': s[0], 'sdec': int(s[1]), 'slap': int(s[2]),
             'k2': int(n[0]), 'ch2': int(n[1]), 'n2': int(n[2]), 'n': int(n[3]), 'avail': int(n[4]), 'follow': int(n[5]),
             'tail': d['T'], 'judged': int(l[0]), 'nfail': int(l[1]), 'first': int(l[2]), 'fch': int(l[3]), 'got': l[4], 'exp': l[5], 'last': int(l[6]), 'ndiff': int(l[7]), 'xlap': int(l[8]),
-            'V': d.get('V', '-'), 'H': d.get('H', 'ok')}
+            'V': d.get('V', '-'), 'H': d.get('H', 'ok'), 'Q': int(d.get('Q', '1'))}
 
 
 def exposed_by_own_lapped_seek(hist):
@@ -143,6 +158,11 @@ def judge(chk, m, r, st):
     if r['src'] == 'err':
         st['machinery'].append(('lap source extraction failed', m))
         return None
+    if 'h1' in m['hist'] or 'h1' in m.get('hist2', ()):
+        if r['Q'] != OV_EINVAL:
+            st['machinery'].append(('ov_halfrate was not refused (returned %d): the case is not a full-rate case' % r['Q'], m))
+            return None
+        st['halfrate_refusals'] += 1
     rcA, rcB = r['rcA'], r['rcB']
     nostate_eos = r['src'] == 'eos_nostate'
     desc0 = f'{where} half={m["half"]} {m["op"]} after {m["hist"]}' + (f' | {m["hist2"]}' if m['kind'] == 'X' else '')
@@ -218,6 +238,8 @@ def judge(chk, m, r, st):
             st['lapped_from_lapout'] += 1
         if r['n1'] != r['n2']:
             st['lapped_blocksize_change'] += 1
+        if r['n'] == 32:
+            st['lapped_n32'] += 1
         if r['xlap']:
             st['lap_ran_into_next_link'] += 1
     if r['src'] in ('nosrc', 'zero', 'short', 'openmid'):
@@ -227,7 +249,7 @@ def judge(chk, m, r, st):
 
 def new_stats(models):
     return {'machinery': [], 'plain_failures': 0, 'eof_nostate': 0, 'eof_nofollow': 0, 'lapped': 0, 'lapped_chchange': {}, 'lapped_from_lapout': 0,
-            'lapped_blocksize_change': 0, 'lap_ran_into_next_link': 0, 'source_unjudged': 0, 'mixed_lapped': {},
+            'lapped_blocksize_change': 0, 'lap_ran_into_next_link': 0, 'source_unjudged': 0, 'mixed_lapped': {}, 'halfrate_refusals': 0, 'lapped_n32': 0,
             'link_starts': {fm.name: set(fm.start[1:fm.nl]) for fm in models}}
 
 
@@ -245,15 +267,24 @@ def run(tier):
     rich = tier == 'thorough'
     t_end = time.time() + (150 if tier == 'quick' else 1380)
     vlib.build('plain', 'asan')
-    allf = zoo.standard_files()
-    files = {k: allf[k] for k in FILES}
-    _, listfile, models = seekgraph.load_models(files)
+    _, listfile, allmodels = seekgraph.load_models(file_set())
+    models = [m for m in allmodels if m.name not in SYNTH]          # encoder-made files: full and half rate
+    synth = [m for m in allmodels if m.name in SYNTH]               # 64-sample short blocks: full rate only
     exe_p = vlib.harness('plain', 'c19_lap')
     exe_a = vlib.harness('asan', 'c19_lap')
-    st = new_stats(models)
+    st = new_stats(allmodels)
     sigs = set()
     sc, sm = seek_cases(models, rich, 0)
     xc, xm = cross_cases(models, XPAIRS_THOROUGH if rich else XPAIRS_QUICK, rich, 0)
+    if rich:
+        yc, ym = seek_cases(synth, rich, 0)
+        zc, zm = cross_cases(allmodels, XPAIRS_SYNTH_THOROUGH, rich, 0)
+    else:
+        # quick: reduced product on F3 and F8 (every 3rd target; all old positions)
+        yc, ym = seek_cases([m for m in synth if m.name in ('F3', 'F8')], rich, 0, thin=3)
+        zc, zm = cross_cases(allmodels, XPAIRS_SYNTH_QUICK, rich, 0)
+    sc, sm, xc, xm = sc + yc, sm + ym, xc + zc, xm + zm
+    nsynth = len(yc) + len(zc)
     if rich:
         # half-rate decoding switched on right after open on every replay: the whole product again
         hc, hm = seek_cases(models, rich, 1)
@@ -286,7 +317,7 @@ def run(tier):
         execute(chk, exe, listfile, c, m, st, sigs, 'c19', extra)
         passes.append({'pass': name, 'cases': len(c), 'completed': True, 'wall_s': round(time.time() - t0, 1)})
     per_file = {}
-    for fm in models:
+    for fm in allmodels:
         O = old_positions(fm, rich)
         T = targets(fm, rich)
         per_file[fm.name] = {'old_positions': len(O), 'targets': {k: len(v) for k, v in T.items()}, 'links': [(l['ch'], l['rate'], l['bs0'], l['bs1'], l['pcm']) for l in fm.desc['links']]}
@@ -300,12 +331,12 @@ def run(tier):
     pick = list(range(0, len(sc), max(1, len(sc) // 8)))[:8]
     chk.cov['samples'] = [{'case': sc[i], 'class': sm[i]['oclass']} for i in pick] + [{'case': xc[i]} for i in range(0, len(xc), max(1, len(xc) // 3))][:3]
     chk.cov.update({'distinct_nontrivial': len(sigs), 'exhaustive': exhaustive, 'passes': passes, 'per_file': per_file,
-                    'seek_cases': len(sc), 'crosslap_cases': len(xc), 'halfrate_cases': len(hc) + len(c2), 'crosslap_mixed_halfrate_cases': sum(1 for x in m2 if x['half'] in ('10', '01')), 'crosslap_mixed_halfrate_lapped_and_passed': st['mixed_lapped'],
+                    'seek_cases': len(sc), 'crosslap_cases': len(xc), 'halfrate_cases': len(hc) + len(c2), 'short64_file_cases': nsynth, 'short64_lapped_and_passed': st['lapped_n32'], 'halfrate_refusals_then_lapped': st['halfrate_refusals'], 'crosslap_mixed_halfrate_cases': sum(1 for x in m2 if x['half'] in ('10', '01')), 'crosslap_mixed_halfrate_lapped_and_passed': st['mixed_lapped'],
                     'plain_failures_compared': st['plain_failures'], 'legit_eof_nothing_follows': st['eof_nofollow'], 'legit_eof_no_decode_state': st['eof_nostate'],
                     'cases_lapped_and_passed': st['lapped'], 'lapped_across_channel_change': {('more_to_fewer' if k > 0 else 'fewer_to_more'): v for k, v in st['lapped_chchange'].items()},
                     'lapped_from_end_of_stream_lapout': st['lapped_from_lapout'], 'lapped_across_blocksize_change': st['lapped_blocksize_change'],
                     'lap_region_ran_into_next_link': st['lap_ran_into_next_link'], 'lap_source_not_observable': st['source_unjudged'],
-                    'rule': 'full product (old-position history) x (target) x (ov_pcm_seek_lap, ov_pcm_seek_page_lap, ov_raw_seek_lap, ov_time_seek_lap, ov_time_seek_page_lap) on F1/F2/F2z '
+                    'rule': 'full product (old-position history) x (target) x (ov_pcm_seek_lap, ov_pcm_seek_page_lap, ov_raw_seek_lap, ov_time_seek_lap, ov_time_seek_page_lap) on F1/F2/F2z and, at full rate only, on the synthesised 64-sample-short-block files F3/F8/F9 (quick: F3/F8, every 3rd target) '
                             '+ ov_crosslap over (old position) x (old position) on file pairs, with half-rate decoding off and on (quick: on for a reduced product on F2 only) and, for ov_crosslap, with different settings on the two handles (full->half, half->full), each as three replays (plain / lapped / lap source) of the real library, once on the plain and once on the ASan build; '
                             'distinct_nontrivial = distinct (variant, old-position class, crossed a link, channel-count change, lapped or not / EOF kind, source decoded or lapout) signatures of cases that passed'})
     chk.assumptions += [
@@ -321,6 +352,8 @@ def run(tier):
     chk.guard(st['eof_nofollow'] > 0 and st['eof_nostate'] > 0, 'both legitimate OV_EOF exceptions occurred')
     chk.guard(st['plain_failures'] > 0, 'failing plain seeks were compared')
     chk.guard(st['lapped_blocksize_change'] > 0, 'lapped between different short block sizes')
+    chk.guard(st['lapped_n32'] > 0, 'lapped with 64-sample short blocks (lap length 32) and passed')
+    chk.guard(st['halfrate_refusals'] > 0, 'lapping after a refused ov_halfrate was exercised')
     chk.guard(st['mixed_lapped'].get('10', 0) > 0 and st['mixed_lapped'].get('01', 0) > 0, 'ov_crosslap between handles with different half-rate settings lapped and passed, both directions')
     return chk.finish()
 
@@ -329,9 +362,7 @@ def replay(path):
     r = json.load(open(path))
     m = r['replay']
     vlib.build('plain')
-    allf = zoo.standard_files()
-    files = {k: allf[k] for k in FILES}
-    _, listfile, models = seekgraph.load_models(files)
+    _, listfile, models = seekgraph.load_models(file_set())
     byname = {x.name: x for x in models}
     exe = vlib.harness('plain', 'c19_lap')
     if m['kind'] == 'S':
